@@ -50,6 +50,17 @@ def reachValue (f : Fam) (nh nlri : Bytes) : Bytes :=
 def unreachValue (f : Fam) (nlri : Bytes) : Bytes :=
   be16 (famCode f).1 ++ (UInt8.ofNat (famCode f).2 :: nlri)
 
+/-- RFC 4760 3 for ANY (AFI, SAFI) code points and ANY value of the reserved
+octet ("MUST be set to 0, and SHOULD be ignored upon receipt"): AFI, SAFI,
+next-hop length, next hop, reserved octet, the rest as it is.
+`reachValue f nh b = mpReachValue (famCode f) nh 0 b` by `rfl`. -/
+def mpReachValue (k : Nat × Nat) (nh : Bytes) (rsv : UInt8) (body : Bytes) : Bytes :=
+  be16 k.1 ++ (UInt8.ofNat k.2 :: UInt8.ofNat nh.length :: (nh ++ (rsv :: body)))
+
+/-- RFC 4760 4 for any (AFI, SAFI): AFI, SAFI, the withdrawn-routes octets as they are -/
+def mpUnreachValue (k : Nat × Nat) (body : Bytes) : Bytes :=
+  be16 k.1 ++ (UInt8.ofNat k.2 :: body)
+
 def marker : Bytes := List.replicate 16 0xff
 
 /-- RFC 4271 4.1 / 4.3: marker, length, type 2, withdrawn routes length and
